@@ -619,6 +619,7 @@ impl Kanata {
         self.sequence_always_on = cfg.options.sequence_always_on;
         self.sequence_input_mode = cfg.options.sequence_input_mode;
         self.sequence_timeout = cfg.options.sequence_timeout;
+        self.release_held_mouse_buttons();
         self.layout = cfg.layout;
         self.key_outputs = cfg.key_outputs;
         self.layer_info = cfg.layer_info;
@@ -684,6 +685,26 @@ impl Kanata {
         self.prev_layer = cur_layer;
         self.print_layer(cur_layer);
         self.macro_on_press_cancel_duration = 0;
+        // Run-time state that refers to the old layout. The new layout never delivers the key
+        // releases that would normally clear it, so start over as a fresh instance does.
+        self.scroll_state = None;
+        self.hscroll_state = None;
+        self.move_mouse_state_vertical = None;
+        self.move_mouse_state_horizontal = None;
+        self.move_mouse_speed_modifiers = Vec::new();
+        self.movemouse_buffer = None;
+        self.sequence_state = SequenceState::new();
+        self.dynamic_macro_replay_state = None;
+        self.dynamic_macro_record_state = None;
+        self.override_states = OverrideStates::new();
+        self.caps_word = None;
+        self.waiting_for_idle = HashSet::default();
+        self.vkeys_pending_release = HashMap::default();
+        self.ticks_since_idle = 0;
+        self.unmodded_keys = vec![];
+        self.unmodded_mods = UnmodMods::empty();
+        self.unshifted_keys = vec![];
+        self.last_pressed_key = KeyCode::No;
 
         #[cfg(not(target_os = "linux"))]
         {
@@ -732,6 +753,27 @@ impl Kanata {
     #[cfg(jtroo_kanata_verif)]
     pub fn verif_do_live_reload(&mut self, tx: &Option<Sender<ServerMessage>>) -> Result<()> {
         self.do_live_reload(tx)
+    }
+
+    /// Release the mouse buttons that are held down by actions of the current layout. Used before
+    /// the layout is replaced: the new layout will never see the release of the keys involved.
+    fn release_held_mouse_buttons(&mut self) {
+        let mut btns = vec![];
+        for state in self.layout.bm().states.iter() {
+            if let State::Custom { value, .. } = state {
+                for ac in value.iter() {
+                    if let CustomAction::Mouse(btn) = ac {
+                        btns.push(*btn);
+                    }
+                }
+            }
+        }
+        for btn in btns {
+            log::debug!("unclick   {:?}", btn);
+            if let Err(e) = self.kbd_out.release_btn(btn) {
+                log::error!("failed to release mouse button {btn:?}: {e:?}");
+            }
+        }
     }
 
     /// Update keyberon layout state for press/release, handle repeat separately
